@@ -30,6 +30,9 @@ type c19PoolIn struct {
 	IdleMs  int    `json:"idle_ms"` // proxy.idleconntimeout (0 = none)
 	MaxConn int    `json:"maxconn"` // proxy.maxconn
 	N       int    `json:"n"`       // requests in flight at the same time
+	// proxy.keepalivetimeout in ms (0 = the stream's 1 s; -1 = a negative value: TCP keep-alive probes off). It is
+	// about probes on a connection, not about keeping connections: the pool must not depend on it.
+	KeepAliveMs int `json:"keepalive_ms,omitempty"`
 }
 
 type c19PoolOut struct {
@@ -39,6 +42,7 @@ type c19PoolOut struct {
 	ObsUs    int64   `json:"obs_us"`    // length of the observation after the last response
 	SlackUs  int64   `json:"slack_us"`
 	Attempts int     `json:"attempts"`
+	NoiseUs  int64   `json:"noise_us"`
 	Err      string  `json:"err,omitempty"`
 }
 
@@ -95,7 +99,11 @@ func c19PoolOnce(in c19PoolIn) (out c19PoolOut) {
 	}
 	defer func() { up.CloseClientConnections(); up.Close() }()
 
-	cfg := c19Cfg{Dial: int64(2 * time.Second), RHT: int64(2 * time.Second), KeepAlive: int64(time.Second),
+	ka := int64(time.Second)
+	if in.KeepAliveMs != 0 {
+		ka = int64(in.KeepAliveMs) * int64(time.Millisecond)
+	}
+	cfg := c19Cfg{Dial: int64(2 * time.Second), RHT: int64(2 * time.Second), KeepAlive: ka,
 		Idle: int64(in.IdleMs) * int64(time.Millisecond), MaxConn: int64(in.MaxConn)}.config()
 	transport.SetConfig(cfg)
 	tbl, err := c19Table(tgt, up.Listener.Addr().String())
@@ -142,6 +150,8 @@ func c19PoolOnce(in c19PoolIn) (out c19PoolOut) {
 		}()
 	}
 	wg.Wait()
+	noise := c19Noise()
+	defer func() { out.NoiseUs = noise().Microseconds() }()
 	t0 := time.Now()
 	// watch until every connection is closed or the idle time plus the observation window has passed
 	deadline := t0.Add(time.Duration(in.IdleMs)*time.Millisecond + c19PoolObserve)
@@ -226,16 +236,30 @@ func c19RunPool(raw json.RawMessage) (interface{}, error) {
 	if in.Kind != "default" && in.Kind != "insecure" && in.Kind != "route" {
 		return nil, fmt.Errorf("unknown kind")
 	}
+	if in.KeepAliveMs < -1000 || in.KeepAliveMs > 5000 {
+		return nil, fmt.Errorf("case outside the range of the stream")
+	}
 	if in.N < 1 || in.N > 8 || in.MaxConn < -3 || in.MaxConn > 16 || in.IdleMs < 0 || in.IdleMs > 1000 || (in.IdleMs != 0 && in.IdleMs < 60) {
 		return nil, fmt.Errorf("case outside the range of the stream")
 	}
 	var out c19PoolOut
-	for a := 1; a <= 3; a++ {
+	quiet := 0
+	for a := 1; a <= 6; a++ {
 		out = c19PoolOnce(in)
 		out.Attempts = a
 		if c19PoolAsExpected(in, out) {
-			break
+			return out, nil
 		}
+		if out.NoiseUs <= c19NoiseLimit.Microseconds() {
+			quiet++
+			if quiet >= 3 {
+				return out, nil
+			}
+		}
+		time.Sleep(time.Duration(a) * 100 * time.Millisecond)
+	}
+	if out.NoiseUs > c19NoiseLimit.Microseconds() && out.Err == "" {
+		out.Err = "env: the machine is too busy for a wall-clock measurement"
 	}
 	return out, nil
 }
@@ -249,12 +273,13 @@ func init() {
 			c19PoolIn{Kind: "route", IdleMs: 60, MaxConn: 3, N: 3},
 			c19PoolIn{Kind: "insecure", IdleMs: 150, MaxConn: 0, N: 4},
 			c19PoolIn{Kind: "default", IdleMs: 100, MaxConn: -1, N: 2},
+			c19PoolIn{Kind: "default", IdleMs: 100, MaxConn: 2, N: 3, KeepAliveMs: -1},
 		},
 		Gen: func(r *hx.Rand, i int) interface{} {
 			return c19PoolIn{Kind: []string{"default", "insecure", "route"}[i%3],
 				IdleMs:  []int{0, 60, 100, 100, 150, 200}[r.Intn(6)],
 				MaxConn: []int{-1, 0, 1, 1, 2, 2, 3, 4, 7}[r.Intn(9)],
-				N:       1 + r.Intn(5)}
+				N:       1 + r.Intn(5), KeepAliveMs: []int{0, 0, -1, 30, 3000}[r.Intn(5)]}
 		},
 		Run: c19RunPool,
 	})
